@@ -824,16 +824,18 @@ class CSSStyleSheet(cssutils.stylesheets.StyleSheet):
                 and self.namespaces[rule.prefix] == rule.namespaceURI
             ):
                 # no doublettes
+                before = list(self._cssRules)
                 self._cssRules.insert(index, rule)
                 if _clean:
                     try:
                         self._cleanNamespaces()
                     except xml.dom.DOMException:
-                        # the rule to be replaced is still in use
-                        for i, r in enumerate(self._cssRules):
-                            if r is rule:
-                                del self._cssRules[i]
-                                break
+                        # the rule to be replaced is still in use: keep all
+                        # rules, also those removed on the way
+                        del self._cssRules[:]
+                        for r in before:
+                            self._cssRules.insert(len(self._cssRules), r)
+                            r._parentStyleSheet = self
                         raise
             else:
                 inserted = False
